@@ -19,7 +19,6 @@ structure ExtrasR (L : LayR) (cobs cacs : List Nat) (Hd : List (LockId × Bool))
   slot1 : w.slots[1]? = some none
   slot2 : w.slots[2]? = some (some (onSubHook rcR srcC fnR feR fcR))
   slot3 : w.slots[3]? = some (some (onUnsubHook rcR))
-  obsvH : w.obsvs[0]? = some Hp.observable
   obsvS : w.obsvs[1]? = some rR.observable
   cellG : w.cells[7]? = some (.bool cg)
   cellB : w.cells[8]? = some (subCellR cobs cacs sb)
@@ -34,7 +33,7 @@ theorem ExtrasR.touch {L cobs cacs Hd cg sb cn w w' J K} (h : ExtrasR L cobs cac
     (t : Touch J K w w') (hK : ¬ K 7 ∧ ¬ K 8 ∧ ¬ K 9) : ExtrasR L cobs cacs Hd cg sb cn w' :=
   { h with
     held := t.held ▸ h.held, slot0 := t.slots ▸ h.slot0, slot1 := t.slots ▸ h.slot1, slot2 := t.slots ▸ h.slot2
-    slot3 := t.slots ▸ h.slot3, obsvH := t.obsvs ▸ h.obsvH, obsvS := t.obsvs ▸ h.obsvS
+    slot3 := t.slots ▸ h.slot3, obsvS := t.obsvs ▸ h.obsvS
     cellG := by rw [t.cells _ hK.1]; exact h.cellG
     cellB := by rw [t.cells _ hK.2.1]; exact h.cellB
     cellN := by rw [t.cells _ hK.2.2]; exact h.cellN
